@@ -11,7 +11,8 @@ namespace SynKit.Store
 
 /-- **C15, invariant part.** Every store of every world reachable from empty stores by any
 sequence of operations (add with generated or chosen ids, remove, remove species with or
-without pruning, merge, copy, assign molecule, and the string entry points `add_rxn_from_str`,
+without pruning, merge of another store or of the store itself, merge of a foreign object with
+`edge_list()` (also one without: `TypeError`), copy, assign molecule, and the string entry points `add_rxn_from_str`,
 `parse_rxns` in all its input forms — including histories in which a line fails to parse and
 `parse_rxns` stops half way) satisfies `Store.Inv`: ids unique, species
 set exact (up to explicitly kept species), both indices exact, molecule labels only for
@@ -67,6 +68,51 @@ theorem merge_edges (s s' : Store) (other : List Edge) (pfx : Bool)
       added.map (fun e => (e.rule, e.reactants, e.products)) =
         other.map (fun e => (normRule (some e.rule), e.reactants, e.products)) :=
   merge_edges' other pfx s s' h
+
+/-- **C15, refinement part (merge of a foreign object).** `merge` accepts any object with
+`edge_list()`; a successful merge of such an object — whatever its edges look like: id missing,
+`None`, duplicated or clashing with stored ids, rule `""` or missing, sides given as mappings,
+label lists or `(species, count)` pairs — leaves every stored reaction untouched and appends one
+reaction per foreign edge with that edge's rule and its normalised stoichiometry. (That the store
+reached is consistent, also when the merge stops at an empty reaction, is `inv_reachable`.) -/
+theorem mergeForeign_edges (s s' : Store) (other : List FEdge) (pfx : Bool)
+    (h : s.mergeForeign other pfx = (s', .ok ())) :
+    ∃ added : List Edge, s'.edges = s.edges ++ added ∧
+      added.map (fun e => (e.rule, e.reactants, e.products)) =
+        other.map (fun e => (normRule (some e.rule), normSide (rawOfItems e.reactants),
+          normSide (rawOfItems e.products))) :=
+  mergeForeign_edges' other pfx s s' h
+
+/-- **C15, stoichiometry of a stored reaction for non-mapping side inputs**
+(`RXNSide._normalize_any` on an iterable: `add_rxn(["A", "A", "B"], [("C", 2)])`,
+`RXNSide([...])`, `RXNSide.from_any`, foreign edges in `merge`): the coefficient of a species in
+the normalised side is the sum of what the elements spell — a `(species, count)` pair its count
+when positive, a non-empty label one; nothing else. Together with `add_lookup_self` (which
+quantifies over all raw inputs) this fixes the stored stoichiometry for every input form. -/
+theorem normSide_items_spec (items : List SideItem) (sp : String) :
+    (normSide (rawOfItems items)).getD sp 0 = (items.map (itemContrib sp)).sum := by
+  rw [normSide_coeff, rawOfItems_contrib]
+
+/-- Non-vacuity / the documented examples: `["A", "B", "A"]` is `{A: 2, B: 1}`; pairs with
+repeated species accumulate, non-positive counts and empty labels are dropped. -/
+example : normSide (rawOfItems [.label "A", .label "B", .label "A"]) = [("A", 2), ("B", 1)] := by decide
+example : normSide (rawOfItems [.pair "C" 2, .label "", .pair "D" 0, .pair "C" 1, .label "E", .pair "B" (-1)]) =
+    [("C", 3), ("E", 1)] := by decide
+
+/-- Non-vacuity of `mergeForeign_edges`, and the id rules of `merge` for foreign edges: no id →
+generated from the edge's rule (`""` gives `_1`, stored rule `"r"`); a second edge with an id
+already present gets a generated id; `prefix_edges=False` keeps a free id. -/
+example : ((({} : Store).mergeForeign
+      [⟨none, "", [.label "A"], [.pair "B" 2]⟩, ⟨some "x", "Q", [.pair "A" 1], [.label "B", .label "B"]⟩,
+       ⟨some "x", "r", [.pair "A" 1], []⟩] false).1.edges.map (fun e => (e.id, e.rule))) =
+    [("_1", "r"), ("x", "Q"), ("r_1", "r")] := by decide
+
+/-- `merge` of an object without `edge_list()` raises `TypeError` and touches nothing; a network
+can be merged into itself (the code iterates over a snapshot of the edge list). -/
+example : (step [{}] (.mergeEdges 0 none true)).2 = .err .typeError ∧
+    ((step [{}] (.mergeEdges 0 none true)).1.map (·.ids)) = [[]] := by decide
+example : ((run (initWorld 1) [.add 0 [("A", 1)] [("B", 1)] none none, .merge 0 0 false])[0]?.map (·.ids)) =
+    some ["r_1", "r_2"] := by decide
 
 /-- **C15, incidence part.** For a reaction with well-formed sides the sparse incidence
 mapping the code builds has entry (produced − consumed) for every species. -/
